@@ -217,18 +217,42 @@ func (w *World) CheckWithdrawSequences(inst *Instance, ws *WalletState, l *Ledge
 		}
 		dest := w.Gen.addrString(c.Holder)
 		amounts := map[string]massutil.Amount{}
+		inputs := []*masswallet.TxIn{{TxId: c.Op.Hash.String(), Vout: c.Op.Index}}
+		total := c.Amount
+		helper := false
 		if c.Amount < 400000 {
-			continue
+			// a small deposit (the generator's staking deposits are) cannot pay
+			// the fee itself: an ordinary spendable coin of the wallet comes
+			// second and funds it
+			var std []*Coin
+			for _, o := range l.Coins {
+				if o.Class == ClassStd && !o.Coinbase && o.SpendableAt(l.Tip) && o.Amount >= 400000 {
+					std = append(std, o)
+				}
+			}
+			if len(std) == 0 {
+				continue
+			}
+			sort.Slice(std, func(i, j int) bool { return std[i].Op.String() < std[j].Op.String() })
+			h := std[ci%len(std)]
+			inputs = append(inputs, &masswallet.TxIn{TxId: h.Op.Hash.String(), Vout: h.Op.Index})
+			total += h.Amount
+			helper = true
 		}
-		a, _ := massutil.NewAmountFromInt(c.Amount - 300000)
+		a, _ := massutil.NewAmountFromInt(total - 300000)
 		amounts[dest] = a
 		var hexTx string
 		var err error
-		inputs := []*masswallet.TxIn{{TxId: c.Op.Hash.String(), Vout: c.Op.Index}}
 		if !inst.RunCall("CreateRawTransaction", true, func() {
 			hexTx, _, err = inst.WM.CreateRawTransaction(inputs, amounts, lockTime, "", nil)
 		}) {
 			return
+		}
+		if err != nil && helper {
+			// the helper coin may be unusable for reasons of its own (spent by a
+			// pending transaction): not this check's business
+			w.Stat("probe.withdraw_with_helper_refused")
+			continue
 		}
 		if err != nil {
 			w.Violate(class+".withdraw-build-failed", "building a withdrawal of %v (class %d, height %d, tip %d) failed: %v", c.Op, c.Class, c.Height, l.Tip, err)
@@ -239,8 +263,8 @@ func (w *World) CheckWithdrawSequences(inst *Instance, ws *WalletState, l *Ledge
 		if derr == nil {
 			derr = tx.SetBytes(raw, wire.Packet)
 		}
-		if derr != nil || len(tx.TxIn) != 1 {
-			w.Violate(class+".withdraw-build-failed", "withdrawal transaction not decodable: %v", derr)
+		if derr != nil || len(tx.TxIn) != len(inputs) || tx.TxIn[0].PreviousOutPoint != c.Op {
+			w.Violate(class+".withdraw-build-failed", "withdrawal transaction not decodable or inputs changed: %v", derr)
 			return
 		}
 		seq := tx.TxIn[0].Sequence
@@ -254,8 +278,25 @@ func (w *World) CheckWithdrawSequences(inst *Instance, ws *WalletState, l *Ledge
 				return
 			}
 		}
+		if need == 0 && seq&wire.SequenceLockTimeDisabled == 0 {
+			// consensus needs no relative lock for this deposit: whatever the
+			// wallet writes must not keep the next block from including it
+			rel := seq & wire.SequenceLockTimeMask
+			if seq&wire.SequenceLockTimeIsSeconds != 0 || l.Tip+1 < c.Height || rel > l.Tip+1-c.Height {
+				w.Violate(class+".withdraw-sequence", "withdrawal input of %v (class %d, confirmed at %d, tip %d) carries sequence %#x, a relative lock consensus does not ask for: the next block cannot include it", c.Op, c.Class, c.Height, l.Tip, seq)
+				return
+			}
+		}
 		inst.RunCall("ClearUsed", true, func() { inst.WM.ClearUsedUTXOMark(&tx) })
 		w.Stat("check.withdraw_sequence")
+		switch {
+		case c.Class == ClassStaking:
+			w.Stat("check.withdraw_sequence.staking")
+		case need == 0:
+			w.Stat("check.withdraw_sequence.binding_without_lock")
+		default:
+			w.Stat("check.withdraw_sequence.binding_locked")
+		}
 	}
 }
 
